@@ -1,20 +1,56 @@
-"""C11 bounded stand-in: the real parser + get_signatures over a grid of definitions and call prefixes.
+"""C11 bounded stand-in: the real parser + get_signatures/infer/goto/help over generated definitions and call sites.
 
-Contract (executable form of the C11 clauses that no function contract reaches end-to-end):
-  * exactly one signature is reported, its parameter names and kinds equal inspect.signature of the executed def,
-  * bracket_start is the position of the opening parenthesis,
-  * index satisfies the binding spec `bind_ok` (contracts/c11.py) for the argument shapes of the typed prefix,
-  * to_string() re-parses (as a def header) to the same parameter kinds and names.
+Part 1 (the original grid, unchanged): plain `def f(...)` over the 5 parameter kinds x short call prefixes, index
+judged by the binding spec `bind_ok` of contracts/c11.py.
+
+Part 2 (wide scenarios): every enumerated parameter-kind list (<= 6 parameters) is rendered as a definition in a
+randomly drawn *style* (function, async function, alias, redefinition, conditional definition, lambda, method via
+instance / variable / class, classmethod, staticmethod, class __init__, inherited __init__ / method, __call__, identity
+decorator, functools.wraps-style wrappers, pure **kwargs pass-through wrappers - plain, with an extra / a given / a
+shadowing parameter, class __init__ and method forwarding - and, where the environment lets jedi unpack *args, the
+*args variants), with defaults and annotations (single- and multi-line source text, strings with significant white
+space, comments), several layouts of the header, a return annotation and a docstring form.
+Call sites: prefixes of <= 5 positional / keyword / starred arguments with rich argument texts (nested calls, brackets,
+lambdas, strings with commas and parentheses), the argument under the cursor in every state of being typed (nothing,
+complete or still open expression, identifier prefix, `name=`, `name=value`, `*`, `**`), several separators and
+parentheses, statement contexts (nested in other calls, brackets, blocks, compound statement headers, decorators),
+text after the cursor, and closed calls with the cursor in every slot.
+
+Oracles (never jedi's own output):
+  * parameters (names, kinds, defaults, annotations, order), return annotation: inspect.signature of the executed
+    object; for pass-through wrappers the signature of the wrapped callable transformed by what the wrapper can
+    forward, which is itself validated against real calls (exactly the calls that bind run without TypeError) - a
+    failure there is a harness error and is raised,
+  * to_string() / ParamName.to_string(): re-executed as a def header in the namespace of the definition and compared
+    with Signature.params and with the same inspect.Signature (values of defaults and annotations),
+  * bracket_start: the offset of the parenthesis in the generated text,
+  * index: the typed argument list is really evaluated by Python (compile + eval) in a call of a function that has
+    the reference parameters (all optional) with a sentinel in the slot under the cursor; an unknown *iterable is
+    instantiated with every length; an argument that is still ambiguous (nothing typed, a bare identifier, `*`, `**`)
+    may select any parameter some completion would bind, except that an empty slot that can be filled positionally
+    must select the positional parameter; None exactly when no completion binds,
+  * docstring(raw=True): inspect.getdoc of the executed object; docstring(): the signature line(s) + blank line + text,
+  * two scripts for the same path in a row: the second answer must describe the second source.
+
+Violations carry a `kind` (family of input) next to the label; at most 3 per (label, kind) are listed.
 """
 import inspect
 import itertools
+import keyword
 import multiprocessing as mp
 import os
+import random
+import sys
 import traceback
+import types
 
 KINDS = {0: 'POSITIONAL_ONLY', 1: 'POSITIONAL_OR_KEYWORD', 2: 'VAR_POSITIONAL', 3: 'KEYWORD_ONLY', 4: 'VAR_KEYWORD'}
 NAMES = ['a', 'b', 'c', 'd']
 
+
+# =====================================================================================================================
+# Part 1: the original grid (kept as it was: known findings are keyed on its labels and input format)
+# =====================================================================================================================
 
 def param_lists(max_n):
     out = [[]]
@@ -28,7 +64,6 @@ def param_lists(max_n):
 
 def render_def(params):
     parts = []
-    po = [p for p in params if p[0] == 0]
     seen_star = False
     for i, (k, n) in enumerate(params):
         if k == 2:
@@ -100,7 +135,8 @@ def check_case(case):
         s = jedi.Script(src)
         sigs = s.get_signatures()
         if len(sigs) != 1:
-            return 1, [{'label': 'expected exactly one signature', 'input': repr(src), 'observed': repr(sigs)}]
+            return 1, [{'label': 'expected exactly one signature', 'input': repr(src), 'observed': repr(sigs),
+                        'kind': 'grid'}]
         sig = sigs[0]
         ns = {}
         exec(code, ns)
@@ -138,6 +174,8 @@ def check_case(case):
         return 1, []
     except Exception:
         viol.append({'label': 'get_signatures raised', 'input': repr(src), 'observed': traceback.format_exc(limit=4)})
+    for v in viol:
+        v['kind'] = 'grid'
     return 1, viol
 
 
@@ -145,6 +183,1186 @@ def _init_worker():
     import tempfile
     import jedi
     jedi.settings.cache_directory = tempfile.mkdtemp(prefix='w_', dir=os.environ['STANDIN_TMP'])
+
+
+# =====================================================================================================================
+# Part 2: wide scenarios
+# =====================================================================================================================
+
+L_ONE = 'expected exactly one signature'
+L_PARAMS = 'signature parameters differ from inspect.signature'
+L_BRACKET = 'bracket_start is not the opening parenthesis'
+L_TS = 'to_string() does not re-parse to the same signature'
+L_TS_SYNTAX = 'to_string() is not a valid def header'
+L_RAISED = 'get_signatures raised'
+# new clauses
+L_INDEX = 'index differs from the parameter Python binds the argument to'
+L_TS_VALUES = 'to_string() re-parses to different defaults or annotations'
+L_RETURN = 'return annotation differs from inspect.signature'
+L_PARAM_TS = 'ParamName.to_string() differs from the parameter of the definition'
+L_OUTER = 'enclosing call is not the innermost call whose parentheses contain the cursor'
+L_DOC_RAW = 'docstring(raw=True) differs from inspect.getdoc'
+L_DOC_FULL = 'docstring() is not the signature line(s) followed by the inspect.getdoc text'
+L_DOC_ONE = 'expected exactly one definition'
+L_DOC_RAISED = 'docstring query raised'
+L_STALE = 'signature of an earlier source of the same path is reported'
+
+PRE = ('class K:\n'
+       '    attr = 3\n'
+       'CONST = 7\n'
+       'def h(h0=0, h1=1, h2=2, *ha, **hk):\n'
+       '    return h0\n')
+
+NAME_POOLS = [
+    (3, ['a', 'b', 'c', 'd', 'e', 'j']),           # (f, g, h, q, w, ... are names of the generated modules)
+    (2, ['alpha', 'beta', 'gamma', 'delta', 'eps', 'zeta']),
+    (3, ['p1', 'p12', 'p123', 'r', 'r_', 'rr']),          # names that are prefixes of each other
+    (2, ['_a', 'b_', '_c_', 'd1', 'E', 'j']),
+    (1, ['arg', 'args', 'kw', 'kwargs', 'k', 'v']),
+    (1, ['__p', '_q', 'r', '__s', 't', 'u2']),             # a leading double underscore is an ordinary name in source
+]
+
+DEFAULTS_1 = ['1', 'None', "'s'", '-1', '1.5', '()', '[]', '{}', '(1, 2)', "'a b'", '"q\'t"', 'CONST', 'K', "'x  y'",
+              "'t\\tb'", 'CONST + 1', "{'k': [1, 2]}", 'True', "b'b'", '2**3', "'#no'", '"a" "b"', '(3)', 'not CONST',
+              "'''tri'''", 'K.attr', 'h(1)', "' lead'", '"trail  "', '[1,2]', 'CONST  if  K  else  0']
+DEFAULTS_N = ['(1,\n        2)', "('p'\n        '   r')", "'''tri\n  ple'''", '(1 |  # bits\n        2)',
+              "{'k': '    ',\n        'r': '\\t'}", '[\n        1,\n        2,\n    ]', '(CONST +\n        1)',
+              '"""a\n\n\tb"""', "('u'   'v',\n        )", "('x'  # why\n         'y')"]
+ANNOTS_1 = ['int', 'str', "'K'", 'K', '"a  b"', 'CONST', 'list[int]', '(int, str)', "'list[K]'",
+            'K.attr', '1', "'t\\tb'"]
+ANNOTS_N = ["(int,\n        'two  words')", 'list[\n        int]', "('lead'  # why\n        )"]
+RETURNS = [None, None, None, 'int', "'K'", 'None', 'K', 'list[int]', '(int,\n        str)', '"a  b"']
+
+DOCS = [
+    (4, 'none', None),
+    (4, 'one', '"""One line."""'),
+    (2, 'single', "'single quoted'"),
+    (4, 'multi', '"""Summary.\n\n{i}    indented\n{i}      more\n{i}back\n{i}"""'),
+    (2, 'trailing', '"""Frob.  """'),
+    (2, 'closing-indent', "'''Make.\n{i}   '''"),
+    (2, 'lead-nl', '"""\n{i}Lead.\n{i}"""'),
+    (1, 'raw', 'r"""raw \\n \\d"""'),
+    (1, 'upper-raw', 'R"x\\y"'),
+    (1, 'u', 'u"uni"'),
+    (1, 'escapes', '"t\\tb\\\\n\\x41"'),
+    (1, 'unicode', '"""\u00fcn\u00ef \u20ac"""'),
+    (1, 'tabs', '"""tab\n\tq\n\t  r\n\t"""'),
+    (1, 'after-comment', '# c\n{i}"after comment"'),
+    (1, 'semicolon', '"doc"; zq = 1'),
+    (1, 'not-first', 'zq = 1\n{i}"not doc"'),
+    (1, 'fstring', 'f"fs"'),
+    (1, 'percent', '"%s" % 1'),
+    (1, 'method-call', '"a".lower()'),
+    (0.3, 'concat', '"a" "b"'),
+    (0.3, 'concat-nl', '"a" \\\n{i}"b"'),
+    (0.3, 'paren', '("paren")'),
+    (0.3, 'bytes', 'b"bytes"'),
+    (1, 'dedent-mixed', '"""First\n{i}  two\n{i}    four\n{i}"""'),
+    (1, 'blank-lines', '"""\n\n{i}X\n\n\n{i}"""'),
+    (1, 'only-ws', '"""   """'),
+    (1, 'empty', '""'),
+    (1, 'trailing-lines', '"""Doc\n{i}end   \n\n{i}"""'),
+    (1, 'quote-inside', '"""He said "hi"."""'),
+    (1, 'continuation', '"""a\\\n{i}b"""'),
+    (1, 'less-indented', '"""Top\n{i}    deep\n  shallow\n{i}"""'),
+]
+
+STYLES = [
+    (6, 'func'), (1, 'async'), (1, 'alias'), (1, 'redefined'), (1, 'conditional'), (1, 'lambda'),
+    (4, 'method'), (2, 'method_var'), (2, 'method_unbound'), (2, 'classmethod'), (1, 'classmethod_inst'),
+    (2, 'staticmethod'), (1, 'staticmethod_inst'), (4, 'init'), (2, 'init_inherited'), (2, 'method_inherited'),
+    (1, 'call'), (1, 'ident_deco'),
+    (3, 'wraps_kw'), (2, 'wraps_both'), (2, 'wraps_method_kw'),
+    (3, 'wrapper_kw'), (1, 'wrapper_both'), (1, 'wrapper_args'), (1, 'wrapper_extra'), (1, 'wrapper_given'),
+    (1, 'wrapper_shadow'),
+    (2, 'init_wrapper_kw'), (1, 'method_wrapper_kw'),
+]
+NEEDS_ARGS_UNPACK = {'wraps_both', 'wrapper_both', 'wrapper_args'}
+KW_ONLY_FORWARD = {'wraps_kw', 'wraps_method_kw', 'wrapper_kw', 'wrapper_extra', 'wrapper_given', 'wrapper_shadow',
+                   'init_wrapper_kw', 'method_wrapper_kw'}
+
+POS_TEXTS = ['1', '1', 'q', "'s'", '(1, 2)', '[1, 2]', '{1: 2, 3: 4}', 'h(1, 2)', 'h(h(1), k=2)', 'q.r', 'q[1, 2]',
+             'lambda u, v=2: u', '1 if q else 2', '"a, b"', '"h(k="', '-1', 'not q', 'q == 1', '[i for i in q]',
+             'h(1)(2)', '0', '(w := 1)', 'q.r(s=1).t', '{1, 2}', '()', '...', "')'", '"("', 'q.r[h(1):2]']
+VAL_TEXTS = ['1', '1', 'q', '(1, 2)', 'h(1, k=2)', '"=,"', 'lambda: 0', 'q == 1', '[1, 2]', '-1', 'q.r', "{'k': 1}",
+             'h(h0=1)']
+STAR_TEXTS = ['*xs', '*xs', '*xs.r', '*h(1)']
+DSTAR_TEXTS = ['**ys', '**ys', '**ys.r', '**h(k=1)']
+# what may be typed so far of a positional expression (the slot under the cursor); none is a bare identifier
+# (no None/True among the argument values: inferring them needs the builtins stub of typeshed, which this sandbox lacks)
+LIT_DONE = ['1', '"s"', "'a, b'", '(2, 3)', 'h(2)', 'h(2)[0]', '0', '-1', 'q.r', '[2]', 'h(2, k=3)', 'q[0]', '1.5']
+LIT_OPEN = ['{3: ', 'q.', 'q[', '-', '2 + ', 'not ', 'lambda u: ', '2 if ', 'h(2).', '[i for i in ', '(', '[', '{',
+            'q if w else ', 'h(2)[', '(2 + ', '[-']
+# ... with a comma inside the still open bracket
+LIT_OPEN_COMMA = ['(2, ', '[2, ', '(2, (3, ', '{3: 4, ', '[2, {3: ', 'q[1, ', 'lambda u, v: (']
+SEPS = [', ', ', ', ', ', ',', ',\n    ', ' , ', ',  # c\n    ', ',\n', ',\n\n        ']
+OPENS = ['(', '(', '(', '( ', '(\n    ', ' (', '(  # c\n    ']
+TRAILS_ANY = ['', '', '', '', ')', '\n', ' ', '\nzq = 1\n', '\n\ndef later(u):\n    return u\n', ')\nzq = 1\n',
+              ', zz2=1)', ')  # done\n', '\n\n\nclass Later:\n    pass\n', '\n    zq = 1\n']
+TRAILS_OPEN = ['', '', '\n', '\nzq = 1\n']
+# (text before the callee, text that closes the context again)
+CONTEXTS = [('', ''), ('', ''), ('', ''), ('zr = ', ''), ('h(0, ', ')'), ('h(k=', ')'), ('[', ']'), ('(', ')'),
+            ('{1: ', '}'), ('zr = [1, ', ']'), ('not ', ''), ('zr = 1 + ', ''), ('assert ', ''), ('lambda: ', ''),
+            ('zr = zs = ', ''), ('zr: int = ', ''), ('zr += ', ''), ('h(0)(', ')'), ('print(h(', '))'), ('zr = -', ''),
+            ('if ', ':\n{b}    pass'), ('while ', ':\n{b}    pass'), ('for i in ', ':\n{b}    pass'),
+            ('with ', ' as zw:\n{b}    pass'), ('raise ', ''), ('zr = q if ', ' else 0'),
+            ('zr = (1,\n      ', ')'), ('h(0, h(1, ', '))'), ('zr = q.r(s=', ')'), ('zr = [i for i in ', ']'),
+            ('zr = {h(1): ', '}'), ('@', '\n{b}def decorated(): pass')]
+BLOCKS = ['', '', '', '', 'if True:\n    ', 'def body(u):\n    ', 'class Z:\n    ', 'try:\n    ', 'for i in q:\n    ',
+          'def body(u):\n    if u:\n        ', 'with q:\n    ', 'if q:\n    pass\nelse:\n    ',
+          'async def body(u):\n    ', 'while True:\n    ', 'class Z:\n    def zm(self):\n        ']
+BLOCK_CLOSE = {'try:\n    ': 'finally:\n    pass\n'}
+
+PO, POK, VP, KWO, VK = (inspect.Parameter.POSITIONAL_ONLY, inspect.Parameter.POSITIONAL_OR_KEYWORD,
+                        inspect.Parameter.VAR_POSITIONAL, inspect.Parameter.KEYWORD_ONLY,
+                        inspect.Parameter.VAR_KEYWORD)
+KIND_OF = {0: PO, 1: POK, 2: VP, 3: KWO, 4: VK}
+
+
+def wchoice(rnd, weighted):
+    total = sum(w[0] for w in weighted)
+    r = rnd.random() * total
+    for w in weighted:
+        r -= w[0]
+        if r < 0:
+            return w[1:] if len(w) > 2 else w[1]
+    return weighted[-1][1:] if len(weighted[-1]) > 2 else weighted[-1][1]
+
+
+def kind_lists(max_n):
+    out = [()]
+    for n in range(1, max_n + 1):
+        for kinds in itertools.product(range(5), repeat=n):
+            if list(kinds) == sorted(kinds) and kinds.count(2) <= 1 and kinds.count(4) <= 1:
+                out.append(kinds)
+    return out
+
+
+# ---------------------------------------------------------------------------------------------------------------------
+# definitions
+# ---------------------------------------------------------------------------------------------------------------------
+
+def gen_params(rnd, kinds, names, rich, po_needs_default, annotations=True):
+    """[(kind, name, default source or None, annotation source or None)]"""
+    params = []
+    need_default = po_needs_default and any(k == 0 for k in kinds)
+    for k, n in zip(kinds, names):
+        d = a = None
+        if k in (0, 1):
+            if need_default or (rich and rnd.random() < 0.35):
+                need_default = True
+                d = rnd.choice(DEFAULTS_N) if rich and rnd.random() < 0.3 else rnd.choice(DEFAULTS_1)
+        elif k == 3 and rich and rnd.random() < 0.5:
+            d = rnd.choice(DEFAULTS_N) if rnd.random() < 0.3 else rnd.choice(DEFAULTS_1)
+        if rich and annotations and rnd.random() < 0.35:
+            a = rnd.choice(ANNOTS_N) if rnd.random() < 0.2 else rnd.choice(ANNOTS_1)
+        params.append((k, n, d, a))
+    return params
+
+
+def render_param_items(params, first, eq, colon):
+    items = [first] if first else []
+    seen_star = False
+    for i, (k, n, d, a) in enumerate(params):
+        if k == 3 and not seen_star:
+            items.append('*')
+            seen_star = True
+        if k == 2:
+            seen_star = True
+        t = {2: '*', 4: '**'}.get(k, '') + n
+        if a is not None:
+            t += colon + a
+        if d is not None:
+            t += (eq if a is None else ' = ') + d
+        items.append(t)
+        if k == 0 and (i + 1 == len(params) or params[i + 1][0] != 0):
+            items.append('/')
+    return items
+
+
+def render_header_args(rnd, params, first, layout, ind):
+    eq = rnd.choice(['=', '=', ' = '])
+    colon = rnd.choice([': ', ': ', ':'])
+    items = render_param_items(params, first, eq, colon)
+    if layout == 'one' or not items:
+        return ', '.join(items)
+    if layout == 'tight':
+        return ','.join(items)
+    pad = ind + '        '
+    if layout == 'multi':
+        return '\n' + pad + (',\n' + pad).join(items) + '\n' + ind
+    if layout == 'multi_tc':
+        return '\n' + pad + (',\n' + pad).join(items) + ',\n' + ind
+    if layout == 'multi_cm':
+        return '\n' + pad + (',  # note\n' + pad).join(items) + '  # last\n' + ind
+    raise RuntimeError('harness: layout ' + layout)
+
+
+def render_fn(rnd, name, params, first=None, ind='', doc=None, ret=None, layout='one', is_async=False, decos=()):
+    out = ''.join(ind + '@' + d + '\n' for d in decos)
+    out += ind + ('async ' if is_async else '') + 'def ' + name + '(' + render_header_args(rnd, params, first, layout,
+                                                                                         ind) + ')'
+    if ret is not None:
+        out += ' -> ' + ret
+    out += ':\n'
+    bi = ind + '    '
+    if doc is not None:
+        out += bi + doc.replace('{i}', bi) + '\n'
+    out += bi + 'return None\n'
+    return out
+
+
+def build_definition(rnd, kinds, style, rich):
+    """the source of a module defining the callee, the expression to call and how its reference signature is obtained"""
+    names = list(wchoice(rnd, NAME_POOLS))
+    dunder = any(n.startswith('__') for n in names)
+    if dunder and style not in ('func', 'method'):
+        names = list(NAME_POOLS[0][1])
+        dunder = False
+    if rnd.random() < 0.3:
+        rnd.shuffle(names)
+    kw_forward = style in KW_ONLY_FORWARD
+    params = gen_params(rnd, kinds, names, rich, po_needs_default=kw_forward, annotations=style != 'lambda')
+    if style == 'wrapper_args':
+        # keyword-only parameters cannot be reached through *args: they need defaults for the wrapper to be callable
+        params = [(k, n, (d if d is not None or k != 3 else '0'), a) for (k, n, d, a) in params]
+    layout = wchoice(rnd, [(5, 'one'), (1, 'tight'), (2, 'multi'), (1, 'multi_tc'), (1, 'multi_cm')]) if rich else 'one'
+    ret = rnd.choice(RETURNS) if rich and style != 'lambda' else None
+    doc_tag, doc = wchoice(rnd, DOCS)
+    doc2_tag, doc2 = wchoice(rnd, DOCS)          # a second documented object (class / inner wrapper / base method)
+    if style.startswith('wraps_') and rnd.random() < 0.3:
+        doc_tag, doc = 'none', None              # functools.wraps copies "no docstring" as well
+    D = {'style': style, 'params': params, 'doc_tag': doc_tag, 'doc2_tag': doc2_tag, 'layout': layout,
+         'refmode': 'inspect', 'docexpr': None, 'goto_ok': True, 'drop': None, 'defname': None, 'dunder': dunder}
+    fn = lambda name, **kw: render_fn(rnd, name, params, doc=doc, ret=ret, layout=layout, **kw)  # noqa: E731
+    src = PRE
+
+    def cls(name, body, base=None, cdoc=None):
+        head = 'class %s%s:\n' % (name, '(%s)' % base if base else rnd.choice(['', '', '()']))
+        if cdoc is not None:
+            head += '    ' + cdoc.replace('{i}', '    ') + '\n'
+        return head + body
+
+    if style == 'func':
+        src += fn('f')
+        D.update(callee='f', docexpr='f', defname='f')
+    elif style == 'async':
+        src += fn('f', is_async=True)
+        D.update(callee='f', docexpr='f', defname='f')
+    elif style == 'alias':
+        src += fn('f') + 'g = f\n'
+        D.update(callee='g', docexpr='g', goto_ok=False)
+    elif style == 'redefined':
+        src += 'def f(old0, old1=0):\n    "old doc"\n    return None\n' + fn('f')
+        D.update(callee='f', docexpr='f')
+    elif style == 'conditional':
+        src += 'if CONST:\n' + fn('f', ind='    ')
+        D.update(callee='f', docexpr='f', defname='f')
+    elif style == 'lambda':
+        items = render_param_items(params, None, '=', ': ')
+        src += 'f = lambda %s: None\n' % ', '.join(items)
+        D.update(callee='f', docexpr='f', goto_ok=False, doc_tag='none')
+    elif style in ('method', 'method_var', 'method_unbound'):
+        src += cls('C', '    attr2 = 1\n' + fn('m', first='self', ind='    '), cdoc=doc2)
+        if style == 'method_var':
+            src += 'c = C()\n'
+        callee = {'method': 'C().m', 'method_var': 'c.m', 'method_unbound': 'C.m'}[style]
+        D.update(callee=callee, docexpr=callee, defname='m')
+    elif style in ('classmethod', 'classmethod_inst', 'staticmethod', 'staticmethod_inst'):
+        cm = style.startswith('class')
+        src += cls('C', fn('m', first='cls' if cm else None, ind='    ',
+                           decos=['classmethod' if cm else 'staticmethod']))
+        callee = 'C().m' if style.endswith('_inst') else 'C.m'
+        D.update(callee=callee, docexpr=callee, defname='m')
+    elif style == 'init':
+        src += cls('C', fn('__init__', first='self', ind='    ') + '    def other(self):\n        return 1\n',
+                   cdoc=doc2)
+        D.update(callee='C', docexpr='C', class_doc=True)
+    elif style == 'init_inherited':
+        src += cls('B', fn('__init__', first='self', ind='    ')) + cls('C', '    attr2 = 1\n', base='B', cdoc=doc2)
+        D.update(callee='C', docexpr='C', class_doc=True)
+    elif style == 'method_inherited':
+        src += cls('B', fn('m', first='self', ind='    ')) + cls('C', '    attr2 = 1\n', base='B')
+        D.update(callee='C().m', docexpr='C().m', defname='m')
+    elif style == 'call':
+        src += cls('C', fn('__call__', first='self', ind='    '), cdoc=doc2)
+        D.update(callee='C()')
+    elif style == 'ident_deco':
+        src += 'def ident(fn):\n    return fn\n' + fn('f', decos=['ident'])
+        D.update(callee='f', docexpr='f', defname='f')
+    elif style in ('wraps_kw', 'wraps_both'):
+        wargs = '**kwargs' if style == 'wraps_kw' else '*args, **kwargs'
+        src += ('import functools\ndef deco(func):\n    @functools.wraps(func)\n    def wrapper(%s):\n' % wargs
+                + ('        ' + doc2.replace('{i}', '        ') + '\n' if doc2 is not None else '')
+                + '        return func(%s)\n    return wrapper\n' % wargs + fn('f', decos=['deco']))
+        D.update(callee='f', docexpr='f', defname='f', refmode='kw' if style == 'wraps_kw' else 'inspect')
+    elif style == 'wraps_method_kw':
+        src += ('import functools\ndef deco(func):\n    @functools.wraps(func)\n    def wrapper(self, **kwargs):\n'
+                + ('        ' + doc2.replace('{i}', '        ') + '\n' if doc2 is not None else '')
+                + '        return func(self, **kwargs)\n    return wrapper\n'
+                + cls('C', fn('m', first='self', ind='    ', decos=['deco'])))
+        callee = rnd.choice(['C().m', 'C().m', 'C.m'])
+        D.update(callee=callee, docexpr=callee, defname='m', refmode='kw' if callee == 'C().m' else 'kw_self')
+    elif style in ('wrapper_kw', 'wrapper_both', 'wrapper_args', 'wrapper_extra', 'wrapper_given', 'wrapper_shadow'):
+        wdoc = ('    ' + doc2.replace('{i}', '    ') + '\n') if doc2 is not None else ''
+        src += fn('g')
+        given = [n for (k, n, d, a) in params if k in (1, 3)]
+        if style == 'wrapper_given' and (not given or 4 in kinds):
+            style = D['style'] = 'wrapper_kw'
+        shadowed = [n for (k, n, d, a) in params if k in (1, 3) and d is not None and n != 'kwargs']
+        if style == 'wrapper_shadow' and not shadowed:
+            style = D['style'] = 'wrapper_extra'
+        if style == 'wrapper_kw':
+            src += 'def f(**kwargs):\n' + wdoc + '    return g(**kwargs)\n'
+            D.update(refmode='kw')
+        elif style == 'wrapper_both':
+            src += 'def f(*args, **kwargs):\n' + wdoc + '    return g(*args, **kwargs)\n'
+            D.update(refmode='both')
+        elif style == 'wrapper_args':
+            src += 'def f(*args):\n' + wdoc + '    return g(*args)\n'
+            D.update(refmode='args')
+        elif style == 'wrapper_extra':
+            src += 'def f(w0, **kwargs):\n' + wdoc + '    return g(**kwargs)\n'
+            D.update(refmode='kw_extra')
+        elif style == 'wrapper_shadow':
+            # the wrapper has a parameter of its own with the name of an (optional) parameter of the wrapped callable
+            drop = rnd.choice(shadowed)
+            src += 'def f(%s=0, **kwargs):\n' % drop + wdoc + '    return g(**kwargs)\n'
+            D.update(refmode='kw_shadow', drop=drop)
+        else:
+            drop = rnd.choice(given)
+            src += 'def f(**kwargs):\n' + wdoc + '    return g(%s=0, **kwargs)\n' % drop
+            D.update(refmode='kw', drop=drop)
+        D.update(callee='f', docexpr='f', defname='f', doc_tag=doc2_tag, wrapped='g')
+    elif style == 'init_wrapper_kw':
+        src += fn('g') + cls('C', '    def __init__(self, **options):\n        self.r = g(**options)\n', cdoc=doc2)
+        D.update(callee='C', docexpr='C', refmode='kw', wrapped='g', class_doc=True)
+    elif style == 'method_wrapper_kw':
+        src += cls('C', fn('m0', first='self', ind='    ')
+                   + '    def m(self, **kwargs):\n        return self.m0(**kwargs)\n')
+        D.update(callee='C().m', docexpr='C().m', defname='m', refmode='kw', wrapped='C().m0', doc_tag='none')
+    else:
+        raise RuntimeError('harness: style ' + style)
+    D['src'] = src
+    D['names'] = [p[1] for p in params]
+    return D
+
+
+def exec_definition(src, slot_id):
+    """run the source as a real module (inspect.getdoc locates classes through sys.modules)"""
+    name = 'c11_standin_mod_%d' % slot_id
+    mod = types.ModuleType(name)
+    sys.modules[name] = mod
+    exec(compile(src, '<c11-definition>', 'exec'), mod.__dict__)
+    return name, mod.__dict__
+
+
+def _kw_transform(sig, extra=(), drop=None):
+    ps = list(extra)
+    for p in sig.parameters.values():
+        if p.name == drop or p.kind in (PO, VP):
+            continue
+        ps.append(p.replace(kind=KWO) if p.kind == POK else p)
+    return sig.replace(parameters=ps)
+
+
+def _args_transform(sig):
+    ps = []
+    for p in sig.parameters.values():
+        if p.kind in (KWO, VK):
+            continue
+        ps.append(p.replace(kind=PO) if p.kind == POK else p)
+    return sig.replace(parameters=ps)
+
+
+def _accepts(callable_, args, kwargs):
+    try:
+        callable_(*args, **kwargs)
+    except TypeError:
+        return False
+    return True
+
+
+def validate_reference(ref, real, D):
+    """exactly the calls that bind against the reference signature must run without TypeError (real execution)"""
+    names = list(ref.parameters) + [p[1] for p in D['params']] + ['zz']
+    names = list(dict.fromkeys(n for n in names))
+    npos = sum(1 for p in ref.parameters.values() if p.kind in (PO, POK))
+    subsets = [()]
+    for r in (1, 2, 3):
+        subsets += list(itertools.combinations(names, r))
+    subsets.append(tuple(names[:-1]))
+    binds = make_probe(ref, partial=False)
+    for n_pos in range(0, npos + 2):
+        for keys in subsets:
+            args = (0,) * n_pos
+            kwargs = dict.fromkeys(keys, 0)
+            if _accepts(binds, args, kwargs) != _accepts(real, args, kwargs):
+                raise RuntimeError('harness: reference signature %s of %r is not call-equivalent for (*%r, **%r)\n%s'
+                                   % (ref, D['callee'], args, kwargs, D['src']))
+
+
+def reference_signature(D, ns):
+    real = eval(D['callee'], ns)
+    mode = D['refmode']
+    if mode == 'inspect':
+        return real, inspect.signature(real)
+    if mode == 'kw_self':       # the undecorated-looking function reached through the class: self stays
+        base = inspect.signature(real)
+        ref = _kw_transform(base.replace(parameters=list(base.parameters.values())[1:]),
+                            extra=[inspect.Parameter('self', POK)])
+    else:
+        base = inspect.signature(eval(D['wrapped'], ns)) if 'wrapped' in D else inspect.signature(real)
+        if mode == 'kw':
+            ref = _kw_transform(base, drop=D['drop'])
+        elif mode == 'kw_extra':
+            ref = _kw_transform(base, extra=[inspect.Parameter('w0', POK)])
+        elif mode == 'kw_shadow':
+            ref = _kw_transform(base, extra=[inspect.Parameter(D['drop'], POK, default=0)], drop=D['drop'])
+        elif mode == 'both':
+            ref = base
+        elif mode == 'args':
+            ref = _args_transform(base)
+        else:
+            raise RuntimeError('harness: refmode ' + mode)
+    if D['style'] in ('init_wrapper_kw',):
+        ref = ref.replace(return_annotation=inspect.Signature.empty)
+    validate_reference(ref, real, D)
+    return real, ref
+
+
+# ---------------------------------------------------------------------------------------------------------------------
+# the index oracle: Python evaluates the typed argument list
+# ---------------------------------------------------------------------------------------------------------------------
+
+class _Sentinel:
+    def __repr__(self):
+        return '<SENT>'
+
+
+SENT = _Sentinel()
+
+
+class _U:
+    """a value every generated argument text can be evaluated with"""
+    def __init__(self, n=0):
+        self._n = n
+
+    def __call__(self, *a, **k):
+        return self
+
+    def __getattr__(self, name):
+        if name.startswith('__'):
+            raise AttributeError(name)
+        return self
+
+    def __getitem__(self, key):
+        return self
+
+    def __iter__(self):
+        return iter((0,) * self._n)
+
+    def keys(self):
+        return ()
+
+    def __bool__(self):
+        return True
+
+    def __neg__(self):
+        return self
+
+    def __add__(self, other):
+        return self
+
+    __radd__ = __add__
+
+    def __eq__(self, other):
+        return True
+
+    def __hash__(self):
+        return 1
+
+
+_TYPE_ERRORS = ('positional argument', 'multiple values for', 'unexpected keyword argument', 'positional-only')
+_MISSING = _Sentinel()
+
+
+def make_probe(ref, partial=True):
+    """a real function with the parameters of the reference signature (all optional when partial): calling it is
+    Python's own binding of a (partial) argument list (Signature.bind mishandles positional-only names with **kwargs)"""
+    plist = list(ref.parameters.values())
+    parts = []
+    star_seen = False
+    for i, p in enumerate(plist):
+        if p.kind is KWO and not star_seen:
+            parts.append('*')
+            star_seen = True
+        if p.kind is VP:
+            parts.append('*' + p.name)
+            star_seen = True
+        elif p.kind is VK:
+            parts.append('**' + p.name)
+        else:
+            parts.append(p.name + ('=__MISSING' if partial or p.default is not p.empty else ''))
+        if p.kind is PO and (i + 1 == len(plist) or plist[i + 1].kind is not PO):
+            parts.append('/')
+    ns = {'__MISSING': _MISSING}
+    exec('def __probe(%s):\n    return locals()\n' % ', '.join(parts), ns)
+    return ns['__probe']
+
+
+class Binder:
+    def __init__(self, ref, extra_names):
+        self.ref = ref
+        self.plist = list(ref.parameters.values())
+        self.extra = list(extra_names)
+        self.probe = make_probe(ref)
+        self._cache = {}
+
+    def _ns(self, n):
+        u = _U(n)
+        ns = {'__bind': self.probe, '__S': SENT}
+        for name in ['q', 'w', 'xs', 'ys', 'h', 'zz', 'zz2', 'zq', 'K', 'CONST'] + self.extra \
+                + [p.name for p in self.plist]:
+            ns[name] = u
+        return ns
+
+    def bind(self, text, n, extra=None):
+        """'syntax' | 'type' | frozenset of the indices of the parameters that received the sentinel"""
+        key = (text, n, None if extra is None else repr(extra))
+        if key in self._cache:
+            return self._cache[key]
+        try:
+            code = compile('__bind(%s)' % text, '<c11-call>', 'eval')
+        except SyntaxError:
+            r = 'syntax'
+        else:
+            ns = self._ns(n)
+            if extra:
+                ns.update(extra)
+            try:
+                ba = eval(code, ns)
+            except TypeError as e:
+                if not any(m in str(e) for m in _TYPE_ERRORS):
+                    raise RuntimeError('harness: unexpected TypeError %s for %r' % (e, text))
+                r = 'type'
+            else:
+                found = set()
+                for i, p in enumerate(self.plist):
+                    v = ba[p.name]
+                    if v is SENT:
+                        found.add(i)
+                    elif p.kind is VP and any(e is SENT for e in v):
+                        found.add(i)
+                    elif p.kind is VK and any(e is SENT for e in v.values()):
+                        found.add(i)
+                r = frozenset(found)
+        self._cache[key] = r
+        return r
+
+    def allowed(self, prior, cur):
+        """the set of admissible answers for `index` (None: the answer None), or None when the prefix is outside the
+        domain of the property (Python cannot complete it to a call that binds)"""
+        has_star = any(t.startswith('*') and not t.startswith('**') for t in prior)
+        has_kw = any(self._is_kw(t) for t in prior)
+        npos_max = len(self.plist) + 1
+        lengths = range(0, npos_max + 1) if has_star else [0]
+        ptxt = ', '.join(prior)
+        names = [p.name for p in self.plist]
+        kind = cur[0]
+        if kind == 'star' and has_kw:
+            return None             # *iterable after a keyword: left unspecified by the contract (as in part 1)
+        res = {'pos': set(), 'kw': set(), 'star': set(), 'dstar': set()}
+        possible = set()
+        feasible = False
+        for n in lengths:
+            r = self.bind(ptxt, n)
+            if r == 'syntax':
+                return None
+            if r == 'type':
+                continue
+            feasible = True
+
+            def interp(tag, text, extra=None):
+                rr = self.bind((ptxt + ', ' if ptxt else '') + text, n, extra)
+                if rr == 'syntax':
+                    return
+                possible.add(tag)
+                if rr != 'type':
+                    res[tag] |= rr
+
+            if kind in ('lit', 'empty', 'ident'):
+                interp('pos', '__S')
+            if kind == 'kw':
+                interp('kw', cur[1] + '=__S')
+            if kind == 'ident':
+                for nm in names:
+                    if nm.startswith(cur[1]):
+                        interp('kw', nm + '=__S')
+                interp('kw', cur[1] + 'zz_=__S')
+            if kind == 'empty':
+                for nm in names + ['zz_']:
+                    interp('kw', nm + '=__S')
+            if kind == 'star' or (kind == 'empty' and not has_kw):
+                for m in range(1, npos_max + 1):
+                    interp('star', '*__SI', {'__SI': (SENT,) * m})
+            if kind in ('dstar', 'empty'):
+                for nm in names + ['zz_']:
+                    interp('dstar', '**__SD', {'__SD': {nm: SENT}})
+        if not feasible or not possible:
+            return None
+        if kind == 'empty' and res['pos']:
+            out = set(res['pos'])
+        else:
+            out = res['pos'] | res['kw'] | res['star'] | res['dstar']
+        return out or {None}
+
+    @staticmethod
+    def _is_kw(text):
+        if text.startswith('**'):
+            return True
+        head = text.split('=', 1)[0]
+        return '=' in text and head.strip().isidentifier() and not text[len(head):].startswith('==')
+
+
+# ---------------------------------------------------------------------------------------------------------------------
+# call sites
+# ---------------------------------------------------------------------------------------------------------------------
+
+def pos_of(code, offset):
+    before = code[:offset]
+    line = before.count('\n') + 1
+    col = offset - (before.rfind('\n') + 1)
+    return line, col
+
+
+def gen_prior(rnd, names, n):
+    npos = rnd.randint(0, n)
+    prior = []
+    for _ in range(npos):
+        prior.append(rnd.choice(names) if names and rnd.random() < 0.15 else rnd.choice(POS_TEXTS))
+    pool = names + ['zz']
+    rnd.shuffle(pool)
+    dstar = False
+    for _ in range(n - npos):
+        r = rnd.random()
+        if r < 0.72 and pool:
+            eq = rnd.choice(['=', '=', '=', ' = '])
+            prior.append(pool.pop() + eq + rnd.choice(VAL_TEXTS))
+        elif r < 0.86 and not dstar:
+            prior.append(rnd.choice(STAR_TEXTS))
+        else:
+            prior.append(rnd.choice(DSTAR_TEXTS))
+            dstar = True
+    used = [t.split('=')[0].strip() for t in prior if Binder._is_kw(t) and not t.startswith('**')]
+    return prior, used
+
+
+def gen_current(rnd, names, used):
+    """(kind tag for reports, oracle form, typed text, may text follow the cursor)"""
+    free = [n for n in names if n not in used]
+    r = rnd.random()
+    if r < 0.16:
+        return 'empty', ('empty',), '', True
+    if r < 0.30:
+        return 'literal', ('lit',), rnd.choice(LIT_DONE), True
+    if r < 0.38:
+        return 'open-expression', ('lit',), rnd.choice(LIT_OPEN), False
+    if r < 0.41:
+        return 'open-expression-with-comma', ('lit',), rnd.choice(LIT_OPEN_COMMA), False
+    if r < 0.56:
+        if free and rnd.random() < 0.8:
+            n = rnd.choice(free)
+            pre = n[:rnd.randint(1, len(n))]
+            if keyword.iskeyword(pre):
+                pre = n             # `del` is not the beginning of an identifier for the tokenizer
+        else:
+            pre = rnd.choice(['q', 'z', 'zq', 'K', 'w', 'self', 'kwargs'])
+        return 'identifier', ('ident', pre), pre, True
+    if r < 0.84:
+        n = rnd.choice(free) if free and rnd.random() < 0.85 else rnd.choice(['zz', 'zz', 'self', 'kwargs', 'args'])
+        if n in used:
+            n = 'zz3'
+        eq = rnd.choice(['=', '=', '=', ' = ', ' ='])
+        rr = rnd.random()
+        if rr < 0.5:
+            return 'keyword=', ('kw', n), n + eq, True
+        if rr < 0.8:
+            return 'keyword=value', ('kw', n), n + eq + rnd.choice(LIT_DONE + ['q', 'xs']), True
+        if rnd.random() < 0.25:
+            return 'keyword=open-expression-with-comma', ('kw', n), n + eq + rnd.choice(LIT_OPEN_COMMA), False
+        return 'keyword=open-expression', ('kw', n), n + eq + rnd.choice(LIT_OPEN), False
+    if r < 0.92:
+        t = rnd.choice(['*', '*', '*xs', '*x', '*xs.r'])
+        return 'star', ('star',), t, True
+    t = rnd.choice(['**', '**', '**ys', '**y', '**ys.r'])
+    return 'double-star', ('dstar',), t, True
+
+
+def gen_site(rnd, D, closed):
+    """statement context around the call: (text before the callee, text after the closing parenthesis, tag)"""
+    block = rnd.choice(BLOCKS)
+    ctx, close = rnd.choice(CONTEXTS)
+    if ctx == '@' and (block.startswith('class') or D['callee'].endswith(')')):
+        ctx, close = '', ''
+    bind = block.rsplit('\n', 1)[-1] if block else ''
+    close = close.replace('{b}', bind)
+    tail = BLOCK_CLOSE.get(block, '')
+    tag = 'ctx=%r block=%r' % (ctx, block.split('\n')[0])
+    return block + ctx, close + '\n' + tail, tag
+
+
+class Out:
+    def __init__(self):
+        self.evals = 0
+        self.skipped = 0
+        self.viol = []
+        self.samples = []
+
+    def add(self, label, kind, inp, observed):
+        self.viol.append({'label': label, 'kind': kind, 'input': inp, 'observed': observed})
+
+
+def describe(code, line, col):
+    return '%r @(%d, %d)' % (code, line, col)
+
+
+def sig_facts(sig):
+    return {'params': [(p.name, p.kind.name) for p in sig.params], 'index': sig.index,
+            'bracket_start': tuple(sig.bracket_start), 'to_string': sig.to_string(),
+            'param_strings': [p.to_string() for p in sig.params], 'name': sig.name}
+
+
+def query_signatures(jedi, out, kind, code, line, col, script=None, path=None):
+    """one get_signatures query; returns (script, facts of the single signature or None, the Signature)"""
+    out.evals += 1
+    try:
+        if script is None:
+            script = jedi.Script(code, path=path)
+        sigs = script.get_signatures(line, col)
+        if len(sigs) != 1:
+            out.add(L_ONE, kind, describe(code, line, col), repr(sigs))
+            return script, None, None
+        return script, sig_facts(sigs[0]), sigs[0]
+    except Exception as e:
+        out.add(L_RAISED, 'raised %s: %s' % (type(e).__name__, str(e)[:60]), describe(code, line, col),
+                traceback.format_exc(limit=6))
+        return script, None, None
+
+
+def pkey(p):
+    return (p.name, p.kind.name)
+
+
+def same_value(a, b):
+    if a is b:
+        return True
+    try:
+        return type(a) is type(b) and bool(a == b)
+    except Exception:
+        return False
+
+
+def check_static(out, kind, inp, facts, ref, ns, check_return):
+    """names, kinds, order, defaults, annotations of the reported signature and of its textual forms"""
+    want = [pkey(p) for p in ref.parameters.values()]
+    if facts['params'] != want:
+        out.add(L_PARAMS, kind, inp, 'got %r want %r' % (facts['params'], want))
+    ts = facts['to_string']
+    head, paren, rest = ts.partition('(')
+    ns2 = dict(ns)
+    try:
+        exec(compile('def __reparsed(' + rest + ':\n    pass\n', '<c11-to_string>', 'exec'), ns2)
+    except SyntaxError:
+        out.add(L_TS_SYNTAX, kind, inp, repr(ts))
+        return
+    except RecursionError:
+        raise
+    except Exception as e:
+        out.add(L_TS, kind, inp, '%r cannot be executed as a def header: %s: %s' % (ts, type(e).__name__, e))
+        return
+    back = inspect.signature(ns2['__reparsed'])
+    if [pkey(p) for p in back.parameters.values()] != facts['params']:
+        out.add(L_TS, kind, inp, '%r -> %r, Signature.params: %r'
+                % (ts, [pkey(p) for p in back.parameters.values()], facts['params']))
+    elif facts['params'] == want:
+        diffs = []
+        for b, r in zip(back.parameters.values(), ref.parameters.values()):
+            if not same_value(b.default, r.default):
+                diffs.append('default of %s: %r, executed definition: %r' % (r.name, b.default, r.default))
+            if not same_value(b.annotation, r.annotation):
+                diffs.append('annotation of %s: %r, executed definition: %r' % (r.name, b.annotation, r.annotation))
+        if diffs:
+            out.add(L_TS_VALUES, kind, inp, '%r: %s' % (ts, '; '.join(diffs)))
+        if check_return and not same_value(back.return_annotation, ref.return_annotation):
+            out.add(L_RETURN, kind, inp, '%r: return annotation %r, executed definition: %r'
+                    % (ts, back.return_annotation, ref.return_annotation))
+        # every ParamName.to_string() on its own
+        for s, r in zip(facts['param_strings'], ref.parameters.values()):
+            ns3 = dict(ns)
+            try:
+                exec(compile('def __one(' + s + '):\n    pass\n', '<c11-param>', 'exec'), ns3)
+                one = list(inspect.signature(ns3['__one']).parameters.values())
+                ok = (len(one) == 1 and one[0].name == r.name and same_value(one[0].default, r.default)
+                      and same_value(one[0].annotation, r.annotation)
+                      and (one[0].kind is r.kind or r.kind in (PO, KWO)))
+            except RecursionError:
+                raise
+            except Exception as e:
+                ok = False
+                one = '%s: %s' % (type(e).__name__, e)
+            if not ok:
+                out.add(L_PARAM_TS, kind, inp, '%r -> %r, executed definition: %r' % (s, one, r))
+                break
+
+
+def fmt_allowed(allowed, ref):
+    names = list(ref.parameters)
+    return '{%s}' % ', '.join('None' if a is None else '%d:%s' % (a, names[a])
+                              for a in sorted(allowed, key=lambda x: -1 if x is None else x))
+
+
+def check_index(out, kind, inp, facts, ref, allowed, prior, cur, family):
+    idx = facts['index']
+    if facts['params'] != [pkey(p) for p in ref.parameters.values()]:
+        return          # reported separately; an index into another parameter list cannot be judged
+    if idx not in allowed:
+        kind = 'index %s expected=%s got=%s' % (kind, 'None' if allowed == {None} else 'parameter',
+                                                'None' if idx is None else 'parameter')
+        if 'expected=parameter' in kind and 'with-comma' not in kind:
+            kind += ' ' + family
+        out.add(L_INDEX, kind, inp, 'index=%r, Python binds the argument to %s; arguments before: %r, typed: %r; %s'
+                % (idx, fmt_allowed(allowed, ref), prior, cur, facts['to_string']))
+
+
+def build_open_call(rnd, D, binder, names):
+    """a call that is being typed: (code, cursor offset, offset of the parenthesis, prior, cur, allowed, tags)"""
+    for _attempt in range(40):
+        n = rnd.choice([0, 0, 1, 1, 1, 2, 2, 2, 3, 3, 4, 5])
+        prior, used = gen_prior(rnd, list(names), n)
+        ctag, cur, text, may_follow = gen_current(rnd, names + ['zz'], used)
+        allowed = binder.allowed(prior, cur)
+        if allowed is not None:
+            break
+    else:
+        return None
+    before, _after, stag = gen_site(rnd, D, closed=False)
+    opn = rnd.choice(OPENS)
+    if before.endswith('@') and opn.startswith(' '):
+        opn = '('
+    sep = rnd.choice(SEPS)
+    head = D['src'] + before + D['callee']
+    paren = len(head) + opn.index('(')
+    body = head + opn + ''.join(p + sep for p in prior) + text
+    trail = rnd.choice(TRAILS_ANY if may_follow else TRAILS_OPEN)
+    complete = ctag in ('literal', 'identifier', 'keyword=value') or (ctag in ('star', 'double-star')
+                                                                    and text.strip('*') != '')
+    if trail.startswith(',') and not complete:
+        trail = ')'
+    code = body + trail
+    tags = 'style=%s %s cur=%s sep=%r open=%r trail=%r' % (D['style'], stag, ctag, sep, opn, trail)
+    return code, len(body), paren, prior, cur, allowed, tags, ctag
+
+
+def build_closed_call(rnd, D, binder, names):
+    """a complete call with the cursor in every slot: code, offset of the parenthesis, [(cursor offset, prior, cur,
+    allowed, tag)], offsets for the enclosing h(...) call when there is one"""
+    for _attempt in range(40):
+        n = rnd.choice([0, 1, 2, 2, 3, 3, 4, 5])
+        args, _used = gen_prior(rnd, list(names), n)
+        if isinstance(binder.bind(', '.join(args), 0), frozenset):
+            break
+    else:
+        return None
+    before, after, stag = gen_site(rnd, D, closed=True)
+    opn = rnd.choice(OPENS)
+    if before.endswith('@') and opn.startswith(' '):
+        opn = '('
+    sep = rnd.choice(SEPS)
+    head = D['src'] + before + D['callee']
+    paren = len(head) + opn.index('(')
+    code = head + opn
+    slots = []
+    if not args:
+        slots.append((len(code), [], ('empty',), 'empty'))
+    for j, a in enumerate(args):
+        start = len(code)
+        code += a
+        prior = args[:j]
+        if a.startswith('**'):
+            slots.append((len(code), prior, ('dstar',), 'double-star'))
+        elif a.startswith('*'):
+            slots.append((len(code), prior, ('star',), 'star'))
+        elif Binder._is_kw(a):
+            name = a.split('=')[0].strip()
+            slots.append((len(code), prior, ('kw', name), 'keyword=value'))
+            slots.append((start + a.index('=') + 1, prior, ('kw', name), 'keyword='))
+            cut = rnd.randint(1, len(name))
+            if not keyword.iskeyword(name[:cut]):
+                slots.append((start + cut, prior, ('ident', name[:cut]), 'inside-keyword-name'))
+        elif a.isidentifier():
+            slots.append((len(code), prior, ('ident', a), 'identifier'))
+        else:
+            slots.append((len(code), prior, ('lit',), 'literal'))
+        if j + 1 < len(args):
+            code += sep
+    inner_close = len(code)
+    code += ')'
+    outer = None
+    if before.endswith('h(0, '):
+        # directly behind the closing parenthesis the cursor is in the second slot of the enclosing h(0, ...)
+        outer = (len(code), len(D['src'] + before) - len('(0, '))
+    code += after + rnd.choice(['', 'zq = 1\n', '\ndef later(u):\n    return u\n'])
+    out = []
+    for off, prior, cur, ctag in slots:
+        allowed = binder.allowed(prior, cur)
+        if allowed is not None:
+            out.append((off, prior, cur, allowed, ctag))
+    tags = 'style=%s %s sep=%r open=%r closed' % (D['style'], stag, sep, opn)
+    return code, paren, out, outer, tags, inner_close
+
+
+EXOTIC_DOCS = ('concat', 'concat-nl', 'paren', 'bytes')
+
+
+def doc_kind(D, api):
+    """violations caused by an unusual docstring form are grouped by the form, all others by style and API"""
+    forms = [t for t in (D['doc_tag'], D['doc2_tag']) if t in EXOTIC_DOCS]
+    if forms:
+        return 'doc form=%s' % forms[0]
+    return 'doc style=%s api=%s' % (D['style'], api)
+
+
+def expected_doc(real):
+    return inspect.getdoc(real) or ''
+
+
+def check_docstrings(jedi, out, rnd, D, real):
+    """docstring(raw=True) / docstring() of the definition reached through infer / goto / help / get_names"""
+    if D['docexpr'] is None:
+        return
+    want = expected_doc(real)
+    before, _after, stag = gen_site(rnd, D, closed=False)
+    if before.endswith('@'):
+        before = before[:-1]
+    code = D['src'] + before + D['docexpr']
+    trail = rnd.choice(['', '', '\n', '\nzq = 1\n'])
+    line, col = pos_of(code, len(code))
+    code += trail
+    # (goto/help on a variable that holds the callee answer with the assignment, which is not a definition of it)
+    apis = ['infer'] + (['help', 'goto'] if D['goto_ok'] else [])
+    script = None
+    for api in apis:
+        kind = doc_kind(D, api)
+        inp = '%s via %s [%s doc=%s doc2=%s]' % (describe(code, line, col), api, stag, D['doc_tag'], D['doc2_tag'])
+        out.evals += 1
+        try:
+            if script is None:
+                script = jedi.Script(code)
+            names = getattr(script, api)(line, col)
+            if len(names) != 1:
+                out.add(L_DOC_ONE, kind, inp, repr(names))
+                continue
+            name = names[0]
+            raw = name.docstring(raw=True)
+            full = name.docstring()
+            sigtext = '\n'.join(s.to_string() for s in name.get_signatures())
+            ntype = name.type
+        except Exception as e:
+            out.add(L_DOC_RAISED, 'raised %s: %s' % (type(e).__name__, str(e)[:60]), inp,
+                    traceback.format_exc(limit=6))
+            continue
+        if raw != want:
+            out.add(L_DOC_RAW, kind, inp, 'docstring(raw=True) == %r, inspect.getdoc(%s) == %r'
+                    % (raw, D['docexpr'], want))
+            continue        # (docstring() repeats the wrong text)
+        exp_full = sigtext + '\n\n' + want if sigtext and want else sigtext + want
+        if ntype not in ('function', 'class'):
+            continue        # a variable that holds the callee is not a definition: no signature line is specified
+        if full != exp_full:
+            out.add(L_DOC_FULL, kind, inp, 'docstring() == %r, expected %r' % (full, exp_full))
+    # the name of the def statement itself (the last def of that name is the function behind the callee)
+    if D['defname']:
+        kind = doc_kind(D, 'get_names')
+        out.evals += 1
+        try:
+            found = [n for n in jedi.Script(D['src']).get_names(all_scopes=True)
+                     if n.name == D['defname'] and n.type == 'function']
+            docs = [(n.line, n.docstring(raw=True)) for n in found]
+        except Exception as e:
+            out.add(L_DOC_RAISED, 'raised %s: %s' % (type(e).__name__, str(e)[:60]), repr(D['src']),
+                    traceback.format_exc(limit=6))
+            return
+        if not docs:
+            out.add(L_DOC_ONE, kind, repr(D['src']), 'get_names() has no function %r' % D['defname'])
+        elif docs[-1][1] != want:
+            out.add(L_DOC_RAW, kind, repr(D['src']) + ' via get_names',
+                    'docstring(raw=True) of %s at line %d == %r, inspect.getdoc == %r'
+                    % (D['defname'], docs[-1][0], docs[-1][1], want))
+
+
+def check_signature_docstring(out, kind, inp, sig, real, facts):
+    want = expected_doc(real)
+    try:
+        raw = sig.docstring(raw=True)
+        full = sig.docstring()
+    except Exception as e:
+        out.add(L_DOC_RAISED, 'raised %s: %s' % (type(e).__name__, str(e)[:60]), inp, traceback.format_exc(limit=6))
+        return
+    if raw != want:
+        out.add(L_DOC_RAW, kind, inp + ' via Signature',
+                'docstring(raw=True) == %r, inspect.getdoc == %r' % (raw, want))
+        return
+    exp_full = facts['to_string'] + '\n\n' + want if want else facts['to_string']
+    if full != exp_full:
+        out.add(L_DOC_FULL, kind, inp + ' via Signature', 'docstring() == %r, expected %r' % (full, exp_full))
+
+
+def check_stale(jedi, out, rnd, D, ref, ns, slot_id):
+    """the same path and call text with another definition first"""
+    kinds_old = rnd.choice([(1,), (1, 1), (0, 1, 3), (2, 4), (1, 3, 3)])
+    old = gen_params(rnd, kinds_old, ['old0', 'old1', 'old2'], False, False)
+    lines = D['src'].count('\n')
+    old_src = PRE + 'def f(%s):\n    return None\n' % ', '.join(render_param_items(old, None, '=', ': '))
+    if D['style'] != 'func' or old_src.count('\n') > lines:
+        return
+    old_src += '# pad\n' * (lines - old_src.count('\n'))
+    call = rnd.choice(['', 'zr = ']) + 'f(' + rnd.choice(['', '1, ', 'zz='])
+    path = os.path.join(os.environ['STANDIN_TMP'], 'stale_%d_%d.py' % (os.getpid(), slot_id))
+    line, col = pos_of(old_src + call, len(old_src + call))
+    kind = 'sequence style=func'
+    tmp = Out()
+    query_signatures(jedi, tmp, kind, old_src + call, line, col, path=path)
+    code = D['src'] + call
+    _s, facts, _sig = query_signatures(jedi, out, kind, code, line, col, path=path)
+    if facts is None:
+        return
+    want = [pkey(p) for p in ref.parameters.values()]
+    if facts['params'] != want:
+        fresh = Out()
+        _s, facts2, _sig = query_signatures(jedi, fresh, kind, code, line, col)
+        if facts2 is not None and facts2['params'] == want:
+            out.add(L_STALE, kind, 'path=stale.py: first %r then %s' % (old_src + call, describe(code, line, col)),
+                    'second answer %s, executed definition %s' % (facts['to_string'], ref))
+
+
+def run_slot(slot):
+    """all checks for one definition; deterministic in (seed, slot index)"""
+    import jedi
+    slot_id, seed, kinds, style, rich, n_open, n_closed, do_doc, do_stale = slot
+    rnd = random.Random('c11/%d/%d' % (seed, slot_id))
+    out = Out()
+    D = build_definition(rnd, kinds, style, rich)
+    modname, ns = exec_definition(D['src'], slot_id)
+    try:
+        real, ref = reference_signature(D, ns)
+        names = list(ref.parameters)
+        binder = Binder(ref, D['names'])
+        # (inspect.signature of a class repeats the return annotation of __init__; a call of a class returns the class)
+        check_return = D['refmode'] == 'inspect' and D['style'] not in ('wraps_both', 'init', 'init_inherited')
+        static_done = False
+        family = 'pass-through' if D['refmode'] != 'inspect' or D['style'] == 'wraps_both' else 'plain'
+        skind = 'style=%s%s' % (D['style'], ' names=dunder' if D['dunder'] else '')
+        dkind = doc_kind(D, 'get_signatures')
+        out.samples.append(D['src'][len(PRE):] + D['callee'] + '(')
+        for _ in range(n_open):
+            built = build_open_call(rnd, D, binder, names)
+            if built is None:
+                out.skipped += 1
+                continue
+            code, cursor, paren, prior, cur, allowed, tags, ctag = built
+            line, col = pos_of(code, cursor)
+            kind = 'cur=%s' % ctag
+            inp = '%s [%s]' % (describe(code, line, col), tags)
+            _script, facts, sig = query_signatures(jedi, out, kind, code, line, col)
+            if facts is None:
+                continue
+            if facts['bracket_start'] != pos_of(code, paren):
+                out.add(L_BRACKET, kind, inp, '%r, the parenthesis is at %r' % (facts['bracket_start'],
+                                                                               pos_of(code, paren)))
+            check_index(out, kind, inp, facts, ref, allowed, prior, cur, family)
+            if not static_done or rnd.random() < 0.25:
+                check_static(out, skind, inp, facts, ref, ns, check_return)
+                if not static_done and D['docexpr'] is not None and D['style'] != 'call':
+                    out.evals += 1
+                    check_signature_docstring(out, dkind, inp, sig, real, facts)
+                static_done = True
+        for _ in range(n_closed):
+            built = build_closed_call(rnd, D, binder, names)
+            if built is None:
+                out.skipped += 1
+                continue
+            code, paren, slots, outer, tags, inner_close = built
+            script = None
+            for off, prior, cur, allowed, ctag in slots:
+                line, col = pos_of(code, off)
+                kind = 'cur=%s' % ctag
+                inp = '%s [%s]' % (describe(code, line, col), tags)
+                script, facts, _sig = query_signatures(jedi, out, kind, code, line, col, script=script)
+                if facts is None:
+                    continue
+                if facts['bracket_start'] != pos_of(code, paren):
+                    out.add(L_BRACKET, kind, inp, '%r, the parenthesis is at %r' % (facts['bracket_start'],
+                                                                                   pos_of(code, paren)))
+                check_index(out, kind, inp, facts, ref, allowed, prior, cur, family)
+                if not static_done:
+                    check_static(out, skind, inp, facts, ref, ns, check_return)
+                    static_done = True
+            if outer is not None:
+                off, hparen = outer
+                line, col = pos_of(code, off)
+                kind = 'enclosing-call closed'
+                inp = '%s [%s]' % (describe(code, line, col), tags)
+                script, facts, _sig = query_signatures(jedi, out, kind, code, line, col, script=script)
+                if facts is not None:
+                    if facts['name'] != 'h' or facts['bracket_start'] != pos_of(code, hparen):
+                        out.add(L_OUTER, kind, inp, '%s at %r, expected h at %r'
+                                % (facts['to_string'], facts['bracket_start'], pos_of(code, hparen)))
+                    elif facts['index'] != 1:
+                        out.add(L_INDEX, kind, inp, 'index=%r of %s, Python binds the second positional argument to '
+                                '{1:h1}' % (facts['index'], facts['to_string']))
+        if do_doc:
+            check_docstrings(jedi, out, rnd, D, real)
+        if do_stale:
+            check_stale(jedi, out, rnd, D, ref, ns, slot_id)
+    finally:
+        sys.modules.pop(modname, None)
+    return out.evals, out.skipped, out.viol, out.samples[:1]
+
+
+def args_unpack_supported():
+    """jedi needs the tuple type of typeshed to unpack *args; without it every *args pass-through raises
+    RecursionError on any tree (a property of the environment, not of the tree under test)"""
+    import jedi
+    src = 'def g(a, b=1):\n    return None\ndef w(*args):\n    return g(*args)\nw('
+    try:
+        return [[p.name for p in sig.params] for sig in jedi.Script(src).get_signatures()] == [['a', 'b']]
+    except Exception:
+        return False
+
+
+def make_slots(seed, tier, unpack_ok):
+    rnd = random.Random('c11-slots/%d' % seed)
+    styles = [s for s in STYLES if unpack_ok or s[1] not in NEEDS_ARGS_UNPACK]
+    all6 = kind_lists(6)
+    small = [k for k in all6 if len(k) <= 4]
+    big = [k for k in all6 if len(k) > 4]
+    if tier == 'quick':
+        chosen = [(k, False) for k in small] + [(k, True) for k in small] \
+            + [(k, True) for k in rnd.sample(big, 60)] + [(k, False) for k in rnd.sample(big, 30)]
+        reps, n_open, n_closed = 4, 3, 1
+    else:
+        chosen = [(k, False) for k in all6] + [(k, True) for k in all6] + [(k, True) for k in all6]
+        reps, n_open, n_closed = 12, 4, 1
+    slots = []
+    for kinds, rich in chosen:
+        for _ in range(reps):
+            style = wchoice(rnd, styles)
+            if style in KW_ONLY_FORWARD and kinds and all(k in (0, 2) for k in kinds) and rnd.random() < 0.7:
+                style = wchoice(rnd, styles)      # nothing would be forwarded; mostly use another style
+            slots.append((len(slots), seed, kinds, style, rich, n_open, n_closed,
+                          rnd.random() < 0.6, rnd.random() < 0.25))
+    return slots
 
 
 def run(repo, seed, tier):
@@ -158,24 +1376,58 @@ def run(repo, seed, tier):
                 for last in last_forms(params):
                     cases.append((params, list(prior), last))
     # a seeded random sample (a stride would always pick the same innermost loop values)
-    import random
     rnd = random.Random(1000 + seed)
     cases = rnd.sample(cases, len(cases) // (3 if tier == 'quick' else 2))
     with mp.get_context('fork').Pool(min(16, os.cpu_count() or 4), initializer=_init_worker) as pool:
+        # (jedi must not be used in this process before the fork: the workers would share its compiled subprocess)
+        unpack_ok = pool.apply(args_unpack_supported)
+        slots = make_slots(seed, tier, unpack_ok)
         results = pool.map(check_case, cases, chunksize=16)
-    evaluations = sum(r[0] for r in results)
+        wide = pool.map(run_slot, slots, chunksize=4)
+    grid_evals = sum(r[0] for r in results)
     violations = [v for r in results for v in r[1]]
-    seen = set()
-    uniq = []
+    wide_evals = sum(r[0] for r in wide)
+    skipped = sum(r[1] for r in wide)
+    violations += [v for r in wide for v in r[2]]
+    counts = {}
+    per_kind = {}
     for v in violations:
-        if v['label'] not in seen:
-            seen.add(v['label'])
-            uniq.append(v)
+        counts[v['label']] = counts.get(v['label'], 0) + 1
+        per_kind.setdefault((v['label'], v.get('kind')), []).append(v)
+    # at most 3 per (label, kind of input), 60 in all: first one of every kind, then the second ones, ...
+    shown = []
+    for rank in range(3):
+        for key in per_kind:
+            if rank < len(per_kind[key]) and len(shown) < 60:
+                shown.append(per_kind[key][rank])
+    evaluations = grid_evals + wide_evals
+    samples = [render_def(c[0]) + 'f(' + ''.join(t + ', ' for t, _ in c[1]) + c[2][0] for c in cases[:2]]
+    samples += [s for r in wide[:40:13] for s in r[3]]
     return {'name': 'C11.signature-grid', 'contract': 'C11.get_signatures',
             'evaluations': evaluations, 'distinct_nontrivial': evaluations,
-            'rule': 'parameter lists over the 5 kinds (<= %d parameters, exhaustive) x call prefixes of <= %d complete '
-                    'arguments (positional, name, keyword per parameter, unknown keyword, *x, **y) x the argument being '
-                    'typed (empty, literal, *, **, each parameter name with and without =), cursor at the end; '
-                    'syntactically impossible prefixes skipped; every case is non-trivial' % (max_n, max_prior),
-            'samples': [render_def(c[0]) + 'f(' + ''.join(t + ', ' for t, _ in c[1]) + c[2][0] for c in cases[:3]],
-            'violations': violations[:300], 'violations_total': len(violations)}
+            'rule': 'part 1: parameter lists over the 5 kinds (<= %d parameters, exhaustive) x call prefixes of <= %d '
+                    'complete arguments (positional, name, keyword per parameter, unknown keyword, *x, **y) x the '
+                    'argument being typed (empty, literal, *, **, each parameter name with and without =), cursor at '
+                    'the end, a seeded random sample, index judged by bind_ok of contracts/c11.py (%d evaluations). '
+                    'part 2: %d definitions: every kind list with <= %s parameters%s, each bare and with random '
+                    'defaults/annotations (single- and multi-line texts)/return annotation/header layout/docstring '
+                    'form, in a random style of %d (function, async, alias, redefinition, lambda, method, '
+                    'classmethod, staticmethod, __init__, inherited, __call__, identity decorator, functools.wraps '
+                    'wrappers, **kwargs%s pass-through wrappers); per definition %d prefixes of <= 5 arguments being '
+                    'typed (random argument texts, separators, statement context, text after the cursor) and %d closed '
+                    'call(s) with the cursor in every slot, docstrings through infer/help/goto/get_names/'
+                    'get_signatures for 60%% of the definitions, a two-script sequence on one path for a quarter of '
+                    'the plain functions (%d evaluations, %d generated prefixes outside the domain skipped). Oracles: '
+                    'inspect.signature / inspect.getdoc of the executed object, pass-through references validated by '
+                    'real calls, index by evaluating the typed arguments with Python against Signature.bind_partial '
+                    '(any length for *iterables; an ambiguous argument may select any parameter a completion binds, '
+                    'an empty slot that can be filled positionally must select that parameter, None iff nothing '
+                    'binds; * after a keyword unspecified), bracket_start by construction.'
+                    % (max_n, max_prior, grid_evals, len(slots), '4' if tier == 'quick' else '6',
+                       ' plus a random sample of 90 lists with 5-6' if tier == 'quick' else '',
+                       len([s for s in STYLES if unpack_ok or s[1] not in NEEDS_ARGS_UNPACK]),
+                       ' and *args' if unpack_ok else ' (*args forwarding not evaluable without typeshed: skipped)',
+                       slots[0][5], slots[0][6], wide_evals, skipped),
+            'samples': samples[:5],
+            'violations': shown, 'violations_total': len(violations), 'violation_counts': counts,
+            'violation_kinds': {'%s | %s' % k: len(v) for k, v in per_kind.items()}}
